@@ -155,3 +155,75 @@ Fixpoint toks_eqb (a b : list tok) : bool :=
   | x :: a', y :: b' => tok_eqb x y && toks_eqb a' b'
   | _, _ => false
   end.
+
+(* ---------------------------------------------------------------------------------------------
+   Powers.  Printer: FortranExpressionMapper.map_power, or -- when the class has none -- pymbolic's
+   StringifyMapper.map_power: `base**exponent`, the base printed at precedence bp, the exponent at xp,
+   the whole put in parentheses iff the precedence it is handed is greater than own.  The three
+   numbers are read from the source (GenC03.v: c03_prec_pow_base / _exp / _own).  Atoms stand for
+   everything that binds tighter (variables, literals -- negative ones carry parentheses of their own
+   in map_constant --, calls, parenthesised sums and products).
+
+   Reader: Fortran's grammar (F2008 R704-R705)
+       mult-operand ::= level-1-expr [ ** mult-operand ]          (`**` associates to the RIGHT)
+       level-1-expr ::= atom | ( expr )
+   read back into a tree. *)
+Inductive pexp := PAtom (n : nat) | PPow (b x : pexp).
+Inductive ptok := PA (n : nat) | PStar | PL | PR.
+
+Section PowerPrinter.
+  Variables bp xp own : nat.
+  Fixpoint pprint (enc : nat) (e : pexp) : list ptok :=
+    match e with
+    | PAtom n => [PA n]
+    | PPow b x => let s := pprint bp b ++ PStar :: pprint xp x in
+                  if own <? enc then PL :: s ++ [PR] else s
+    end.
+End PowerPrinter.
+
+Definition pprim (rd : list ptok -> option (pexp * list ptok)) (ts : list ptok) : option (pexp * list ptok) :=
+  match ts with
+  | PA n :: r => Some (PAtom n, r)
+  | PL :: r => match rd r with Some (e, PR :: r') => Some (e, r') | _ => None end
+  | _ => None
+  end.
+
+Fixpoint pread (fuel : nat) (ts : list ptok) : option (pexp * list ptok) :=
+  match fuel with
+  | 0 => None
+  | S f => match pprim (pread f) ts with
+           | Some (b, PStar :: r) => match pread f r with
+                                     | Some (x, r') => Some (PPow b x, r')
+                                     | None => None
+                                     end
+           | other => other
+           end
+  end.
+
+Fixpoint psize (e : pexp) : nat :=
+  match e with PAtom _ => 1 | PPow b x => 2 + psize b + psize x end.
+
+Section PowerEval.
+  Variable v : nat -> nat.
+  Fixpoint pval (e : pexp) : nat :=
+    match e with PAtom n => v n | PPow b x => Nat.pow (pval b) (pval x) end.
+End PowerEval.
+
+Fixpoint pexp_eqb (a b : pexp) : bool :=
+  match a, b with
+  | PAtom n, PAtom m => Nat.eqb n m
+  | PPow a1 a2, PPow b1 b2 => pexp_eqb a1 b1 && pexp_eqb a2 b2
+  | _, _ => false
+  end.
+Definition ptok_eqb (a b : ptok) : bool :=
+  match a, b with
+  | PA n, PA m => Nat.eqb n m
+  | PStar, PStar | PL, PL | PR, PR => true
+  | _, _ => false
+  end.
+Fixpoint ptoks_eqb (a b : list ptok) : bool :=
+  match a, b with
+  | [], [] => true
+  | x :: a', y :: b' => ptok_eqb x y && ptoks_eqb a' b'
+  | _, _ => false
+  end.
